@@ -301,6 +301,22 @@ func expectMethod(p sb.V, name string, args []sb.V) expect {
 			return expect{mode: "elem", repr: strconv.Quote("any:" + reprV(args[0]))}
 		}
 		return expect{mode: "nopanic"}
+	case "Tag":
+		if len(args) == 0 {
+			return expect{mode: "error"}
+		}
+		exact := goType(args[0]) == "string"
+		var ids []string
+		for _, a := range args[1:] {
+			if goType(a) != "int" {
+				exact = false
+			}
+			ids = append(ids, strconv.Itoa(int(a.N)))
+		}
+		if exact {
+			return expect{mode: "elem", repr: strconv.Quote(args[0].S + ":" + strings.Join(ids, ","))}
+		}
+		return expect{mode: "either", repr: "*"}
 	case "Var", "Self", "Join", "Named":
 		return expect{mode: "nopanic"}
 	}
@@ -351,7 +367,7 @@ func c16Keys() []sb.V {
 }
 
 func c16Methods() []string {
-	return []string{"Greet", "PtrName", "Zero", "Nothing", "Two", "Sum", "F64", "Flag", "Any", "Var", "Join", "Named", "Self", "unexported", "Nope"}
+	return []string{"Greet", "PtrName", "Zero", "Nothing", "Two", "Sum", "F64", "Flag", "Any", "Var", "Join", "Named", "Tag", "Self", "unexported", "Nope"}
 }
 
 func c16ArgLists() [][]sb.V {
@@ -365,7 +381,8 @@ func c16ArgLists() [][]sb.V {
 			out = append(out, []sb.V{a, b})
 		}
 	}
-	out = append(out, []sb.V{vstr("a"), vstr("b"), vstr("c")}, []sb.V{vk("int", 1), vk("int", 2), vk("int", 3)})
+	out = append(out, []sb.V{vstr("a"), vstr("b"), vstr("c")}, []sb.V{vk("int", 1), vk("int", 2), vk("int", 3)},
+		[]sb.V{vstr("t"), vk("int", 1), vk("int", 2)}, []sb.V{vstr("t"), vk("int", 1), vstr("x")}, []sb.V{vk("int", 2), vstr("a"), vstr("b")})
 	return out
 }
 
@@ -579,6 +596,12 @@ func genIter(t *rapid.T) *c16Iter {
 		c = rapid.SampledFrom([]sb.V{vnum(3), vstr("abc"), {K: "bool", B: true}, {K: "person", S: "x"}, {K: "chan"}}).Draw(t, "scalar")
 	case 10:
 		c = sb.V{K: "slice:any", E: elems("str")}
+		if rapid.Bool().Draw(t, "nested") {
+			// elements that are themselves containers (uncomparable Go values)
+			for i := range c.E {
+				c.E[i] = sb.V{K: "arr", E: []sb.V{vnum(float64(i))}}
+			}
+		}
 	default:
 		c = sb.V{K: "map:any:int", E: elems("num")}
 		for i := 0; i < n; i++ {
